@@ -65,6 +65,17 @@ func init() {
 			fr.x.observes = append(fr.x.observes, observation{tag: tag, b: fr.x.bytesOf(a[1])})
 			return nil
 		},
+		zz + "Param": func(fr *frame, a []Value) Value {
+			name, _ := concreteString(a[0].(Str))
+			if v, ok := fr.x.eng.cfg.Params[name]; ok {
+				return fr.x.f.Const(64, uint64(int64(v)))
+			}
+			return a[1]
+		},
+		zz + "EqualBytes": func(fr *frame, a []Value) Value {
+			x := fr.x
+			return x.strEq(Str{x.bytesOf(a[0])}, Str{x.bytesOf(a[1])})
+		},
 		zz + "Symbolic": func(fr *frame, a []Value) Value { return fr.x.f.Bool(true) },
 		zz + "SameBacking": func(fr *frame, a []Value) Value {
 			s1, s2 := a[0].(Slice), a[1].(Slice)
@@ -438,17 +449,14 @@ type floatCall struct {
 	bits int
 }
 
-// inSprintf returns an arbitrary 2-byte string (formatting is not the subject; the result
-// always passes through an escaping encoder in zerolog). Fully concrete calls with only string
-// and integer operands are evaluated exactly.
+// inSprintf: formatting is not the subject of any property; the result always passes through
+// an escaping encoder in zerolog, whose behaviour on arbitrary bytes is decided by the string
+// harnesses. The stub therefore returns one fixed hostile string (quote, control byte, invalid
+// UTF-8) instead of forking over arbitrary content.
 func inSprintf(fr *frame, a []Value) Value {
 	x := fr.x
-	s := make([]*Term, 2)
-	for i := range s {
-		s[i] = x.nondet("u8", 8, "fmt")
-	}
-	x.noteStub("fmt.* -> arbitrary 2-byte string")
-	return Str{s}
+	x.noteStub("fmt.* -> fixed string with quote, control and invalid-UTF-8 bytes")
+	return x.strConst("f\"\x01\xff")
 }
 
 func (x *Exec) newError(msg Str) Value {
